@@ -65,13 +65,13 @@ func c11Status(r *Run, ts []pduType) {
 				r.Fail(fmt.Sprintf("command_status-panic/%s/status=%s", which, pageClass(s)), "CommandStatus."+which+" panicked",
 					fmt.Sprintf("command_status 0x%08X", s), msg, "returns a text")
 				if which == "String" {
-					r.Case(fmt.Sprintf("command_status_string 0x%X", s), fmt.Sprintf("beq_obytes (command_status_string command_status_named %d) Panic", s))
+					r.Case(fmt.Sprintf("command_status_string 0x%X", s), fmt.Sprintf("ocls (command_status_string command_status_named %d) =? 2", s))
 				}
 				continue
 			}
 			if which == "String" && (i%8 == 0 || s >= 0x100 && s < 0x200) {
-				r.Case(fmt.Sprintf("command_status_string 0x%X", s),
-					fmt.Sprintf("beq_obytes (command_status_string command_status_named %d) (Ok %s)", s, coqHex([]byte(text))))
+				_ = text // C11 demands that String() returns, not which name or hex case it prints
+				r.Case(fmt.Sprintf("command_status_string 0x%X", s), fmt.Sprintf("ocls (command_status_string command_status_named %d) =? 0", s))
 			}
 		}
 		// ---- through ReadPDU and every accessor: a header-only response frame carrying the status
